@@ -375,6 +375,12 @@ class Geometry(object):
 
         surf = self.detector.surface(dparam)  # shape (d, ndim)
 
+        # Add leading axes to the array of lower rank to make the parameters
+        # broadcast against each other
+        ndim_diff = (matrix.ndim - 2) - (surf.ndim - 1)
+        matrix = matrix[(None,) * max(-ndim_diff, 0)]
+        surf = surf[(None,) * max(ndim_diff, 0)]
+
         # Perform matrix-vector multiplication along the last axis of both
         # `matrix` and `surf` while "zipping" all axes that do not
         # participate in the matrix-vector product. In other words, the axes
